@@ -69,7 +69,8 @@ def mutants(ids, ev):
             for patch in (os.path.join(cdir, cid, "patch.diff"), os.path.join(cdir, cid, "mutants", m)):
                 a = subprocess.run(["git", "apply", patch], cwd=s, capture_output=True, text=True)
                 if a.returncode != 0: return cid, m, None
-            rc, rules = _run(cid[:3], s, ev)
+            mprop = re.search(r"-(C\d\d)-", "-" + m)      # `mN-Cxx-what.diff`: the mutant breaks another property than the control's own
+            rc, rules = _run(mprop.group(1) if mprop else cid[:3], s, ev)
             return cid, m, (rc, rules)
         finally:
             shutil.rmtree(s, ignore_errors=True)
